@@ -11,7 +11,9 @@
 EXTENDS Lifecycle, TLC, Json
 
 CONSTANTS MaxLen, Updatable, OneShots,
-          OpNames     \* operation names this run draws from (families: handle, index, filters)
+          OpNames,    \* operation names this run draws from (families: handle, index, filters)
+          SameKind    \* TRUE: one lzma_stream keeps being re-initialised with the constructor it already has
+                      \* (the "same init function => coder reused" branch: use, abort, re-initialise, use again)
 
 VARIABLES hk, alive, path
 gvars == <<hk, alive, path>>
@@ -54,6 +56,7 @@ Abs == [S0 EXCEPT !.internal = IF hk = "none" THEN 0 ELSE 1, !.init = hk,
 Legal(o) ==
     /\ BeginOK(Abs, [cls |-> OpClass(o), k |-> o.k, tgt |-> o.tgt, src |-> o.src])
     /\ o.op = "Update" => hk \in Updatable
+    /\ (SameKind /\ o.op = "Init") => hk \in {"none", o.k}
     /\ o.op = "End" => hk # "none"
     \* slot symmetry: the second slot of a type is only filled while the first one is in use
     /\ (OpClass(o) \in {"New", "Derive"} /\ o.tgt \in {"F2", "I2"}) =>
